@@ -154,7 +154,11 @@ class PrecomputedIO:
         :raises AssertionError: if the chunk coordinates are incompatible with
                                 the dataset's *info*
         """
-        assert self.validate_chunk_coords(scale_key, chunk_coords)
+        if not self.validate_chunk_coords(scale_key, chunk_coords):
+            # not an assert statement: the check must survive python -O
+            raise AssertionError(
+                f"chunk coordinates {tuple(chunk_coords)} are not on the "
+                f"chunk grid of scale {scale_key}")
         xmin, xmax, ymin, ymax, zmin, zmax = chunk_coords
         buf = self.accessor.fetch_chunk(scale_key, chunk_coords)
         encoder = self._encoders[scale_key]
@@ -176,7 +180,11 @@ class PrecomputedIO:
         :raises AssertionError: if the chunk coordinates are incompatible with
                                 the dataset's *info*
         """
-        assert self.validate_chunk_coords(scale_key, chunk_coords)
+        if not self.validate_chunk_coords(scale_key, chunk_coords):
+            # not an assert statement: the check must survive python -O
+            raise AssertionError(
+                f"chunk coordinates {tuple(chunk_coords)} are not on the "
+                f"chunk grid of scale {scale_key}")
         encoder = self._encoders[scale_key]
         buf = encoder.encode(chunk)
         self.accessor.store_chunk(
